@@ -594,7 +594,9 @@ func (p *parser) scanString(offset int) (string, error) {
 	// " ' /
 	quote := rune(p.str[offset])
 
-	for p.chr != quote {
+	// quote is -1 inside a character class of a regular expression; that is
+	// also what p.chr is at the end of the input, which terminates nothing.
+	for p.chr != quote || quote == -1 {
 		chr := p.chr
 		if chr == '\n' || chr == '\r' || chr == '\u2028' || chr == '\u2029' || chr < 0 {
 			goto newline
